@@ -164,7 +164,16 @@ func (g *c08Gen) funBody(idx int) *ast.Node {
 			l := fmt.Sprintf("l%d_%d", idx, len(f.locals))
 			f.locals = append(f.locals, l)
 			var m, after *ast.Node
-			switch g.n(0, 4, "mform") {
+			switch g.n(0, 5, "mform") {
+			case 5:
+				// a case with several alternatives: an earlier alternative binds names and then
+				// fails; the names visible in the body are those of the alternative that matched
+				mf := fmt.Sprintf("mf%d", idx)
+				m = ast.Match(ast.Arr(subj, ast.Num("1")), ast.Case(ast.Block(
+					ast.Print(ast.Str(f.name+":alt"), ast.Id(bnd), ast.Is(ast.Id(mf), "unknown"), ast.Id("g1"))),
+					ast.Arr(ast.Id(mf), ast.Num("99")), ast.Arr(ast.Id("g1"), ast.Num("98")), ast.Arr(ast.Id(bnd), ast.Num("1"))))
+				f.locals = append(f.locals, mf)
+				g.labels["match-alternative-that-binds-and-fails"] = true
 			case 4:
 				// a match directly inside another case's body: the inner bindings (one of
 				// them re-using the outer name) end with the inner case
